@@ -227,6 +227,9 @@ def form_events(args):
                 alts = []
                 alts.append(("top_squeeze", 0, 0, lambda: top(sources, sensors), TOL_SAME))
                 alts.append(("sumup", 0, 0, lambda: top(sources, sensors, sumup=True, squeeze=False), TOL_SAME))
+                # options by POSITION in the documented order (sources, observers, sumup, squeeze, pixel_agg, output, in_out)
+                alts.append(("sumup_positional", 0, 0, lambda: top(sources, sensors, True, False), TOL_SAME))
+                alts.append(("top_positional", 0, 0, lambda: top(sources, sensors, False, True, None, "ndarray", "auto"), TOL_SAME))
                 for l in range(L):
                     alts.append(("src_method", l + 1, 0, (lambda l=l: getattr(sources[l], meth)(*sensors, squeeze=False)), TOL_SAME))
                 for k in range(K):
